@@ -386,9 +386,14 @@ class QvmCpu:
             # the call has returned when control is back at the
             # instruction after it *in the frame the call was made
             # from*; a recursive callee's own calls return to the same
-            # address, but in a deeper frame.
+            # address, but in a deeper frame - or, for a GOSUB routine
+            # that calls itself, in the same frame with more GOSUBs
+            # pending.
+            pending = frame.gosub_depth if frame is not None else 0
             bp = lambda cpu: (cpu.pc == prev_pc + size and
-                              cpu.cur_frame is frame)
+                              cpu.cur_frame is frame and
+                              (frame is None or
+                               frame.gosub_depth == pending))
             self.add_breakpoint(bp)
             try:
                 ret = self.run()
